@@ -69,6 +69,8 @@ type Interp struct {
 	// Pure lists non-module functions without effects on their pointer arguments.
 	Pure  func(name string) bool
 	Steps int
+	// InitPkgs lists the packages whose init functions were evaluated by InitGlobals.
+	InitPkgs map[*ssa.Package]bool
 	// AtomDeps records, for every atom that abstracts joined values (loop-carried
 	// values, joins too large to keep as gated terms), the atoms those values mentioned.
 	AtomDeps map[string]map[string]bool
@@ -213,6 +215,10 @@ func (in *Interp) InitGlobals(pkg *ssa.Package) {
 	if fn == nil || fn.Blocks == nil {
 		return
 	}
+	if in.InitPkgs == nil {
+		in.InitPkgs = map[*ssa.Package]bool{}
+	}
+	in.InitPkgs[pkg] = true
 	save := in.Hooks
 	in.Hooks = initHooks{}
 	_, out, _ := in.CallFunction(fn, nil, nil, in.Global, nil, nil, false)
@@ -220,6 +226,14 @@ func (in *Interp) InitGlobals(pkg *ssa.Package) {
 		in.Global = out
 	}
 	in.Hooks = save
+}
+
+// moduleGlobal reports whether g belongs to a package whose init was evaluated.
+func (in *Interp) moduleGlobal(g *ssa.Global) bool {
+	if in.InitPkgs == nil {
+		return true
+	}
+	return in.InitPkgs[g.Pkg]
 }
 
 // FreezeGlobals marks the global memory read-only so that loads are cached.
@@ -1243,6 +1257,10 @@ func (in *Interp) initial(m *Mem, o *Object, p Path, t types.Type) *Term {
 		}
 		return Zero(t)
 	case "global":
+		if o.G != nil && o.G.Pkg != nil && !in.moduleGlobal(o.G) {
+			// a variable of a package whose initialiser was not evaluated: unknown
+			return Atom("init:"+o.ID+p.String(), t)
+		}
 		if m != in.Global {
 			return in.load(in.Global, o, p)
 		}
